@@ -62,7 +62,8 @@ Step(e) ==
             exp1 == IF e.op \in {"src", "ann"} /\ e.c \in ChunkIds THEN [exp EXCEPT ![e.c] = e.exp] ELSE exp
             \* attempts made in this event
             sent == {c \in ChunkIds : ReqSent(e, c)}
-            reassigned == IF isAnn /\ e.c \in before /\ RowOf(ppf, e.c)[2] # e.p THEN {e.c} ELSE {}
+            \* the announce re-assigned the pending fetch to another provider (a refused announce changes nothing)
+            reassigned == IF isAnn /\ e.c \in before /\ RowOf(ppf, e.c)[2] # e.p /\ (e.c \in after => RowOf(pf, e.c)[2] = e.p) THEN {e.c} ELSE {}
             attBefore(c) == IF c \in before /\ c \notin reassigned THEN RowOf(ppf, c)[3] ELSE 0
             failed == {c \in after : RowOf(pf, c)[3] > attBefore(c) /\ c \notin sent}
             lf1 == [c \in ChunkIds |-> IF c \notin after \/ c \in sent THEN 0
